@@ -14,7 +14,7 @@
 //@ fn PubPoint::check_collected_is_newer
 //@ spec
     ensures
-        // C05: the fetched manifest is declared newer only if there is no stored manifest, or
+        // C05 + C04 (the stored version is discarded only when it is itself unusable): the fetched manifest is declared newer only if there is no stored manifest, or
         // number and thisUpdate are both strictly greater, or the stored copy is internally
         // inconsistent (and has then been discarded)
         res == Ok::<bool, Failed>(true) ==> ({
@@ -23,7 +23,7 @@
             ||| (stored_inconsistent(old(stored).manifest->Some_0, old(self).run.validation.strict)
                     && final(stored).manifest is None)
         }),
-        // C05: a replayed / reordered older manifest never displaces consistent stored data:
+        // C05 + C04: a replayed / reordered older manifest never displaces consistent stored data:
         // the answer is `false` and the stored point is untouched
         (old(stored).manifest matches Some(s)
             && !strictly_newer(collected, s)
